@@ -1098,7 +1098,7 @@ static Verdict runCase(const Case& c)
       // known finding boost-global-precision: a solve that boosts its precision reads the process-wide default
       // precision, which every SoPlex constructor / exact solve / boost in another thread overwrites. Exactly the
       // programs that performed >= 1 precision boost are not compared (they still run concurrently under TSan).
-      if(infA[t].boosts > 0 && knownKey("boost-global-precision"))
+      if(infA[t].boosts > 0 && (knownKey("boost-global-precision") || knownKey("boost-precision-outlives-object")))
       {
          e.count("excluded_known.boost-global-precision");
          continue;
